@@ -480,6 +480,7 @@ def oracle_renumbering(base, bout, var, vout):
     ren = var["meta"]["renumber"]
     sigma = ren["sigma"]
     bad = []
+    planar_faces = not base.get("F") or all(G.is_planar([[Fr(x) for x in base["V"][u]] for u in f]) for f in base["F"])
     for k, (call, rb, rv) in enumerate(zip(base["script"], bout["out"], vout["out"])):
         if "ok" not in rb or "ok" not in rv or not finite(rb["ok"]) or not finite(rv["ok"]):
             continue
@@ -491,6 +492,8 @@ def oracle_renumbering(base, bout, var, vout):
                 return len(x) == len(y) and all(same(p, q) for p, q in zip(x, y))
             return close(y, x)
         ok = True
+        if nm in ("vnormals", "face_normals") and not planar_faces:
+            continue   # the normal of a skew quad is taken from its first three vertices: not a rotation-invariant notion
         if nm in ("degree", "defects", "vnormals", "f2v", "c2v"):   # vertex-indexed
             ok = all(same(b[u], v[sigma[u]]) for u in range(len(sigma)))
         elif nm in ("face_area", "face_normals", "face_bary", "v2f", "c2f") and "order" in ren:   # face-indexed
@@ -606,27 +609,35 @@ def classify(call, msg):
 
 
 # ====================================================================== shrinking
-def shrink_case(case, k, fails):
-    """reduce to the failing call (keeping the prefix only if the failure needs it), then delete faces greedily"""
+def shrink_case(case, k, fails_many):
+    """reduce to the failing call (keeping the prefix only if the failure needs it), then delete faces greedily.
+    fails_many(list of candidate cases) -> list of bool (one implementation run per round)"""
     cur = dict(case)
     single = dict(cur, script=[cur["script"][k]])
-    if fails(single):
+    if fails_many([single])[0]:
         cur = single
     else:
         cur = dict(cur, script=cur["script"][:k + 1])
-    if cur.get("F") and not cur.get("C") and all(c[0] not in ("v2f", "f2v", "sv2c", "sf2c", "c2v", "c2f") for c in cur["script"]):
-        changed = True
-        while changed and len(cur["F"]) > 1:
-            changed = False
+    interp = any(c[0] in ("v2f", "f2v", "sv2c", "sf2c", "c2v", "c2f") for c in cur["script"])
+    if cur.get("F") and not cur.get("C") and not interp:
+        for _round in range(60):
+            cands = []
             for fi in range(len(cur["F"])):
                 F2 = cur["F"][:fi] + cur["F"][fi + 1:]
+                if not F2:
+                    continue
                 used = sorted({v for f in F2 for v in f})
                 ren = {v: i for i, v in enumerate(used)}
                 cand = dict(cur, V=[cur["V"][v] for v in used], F=[[ren[v] for v in f] for f in F2])
-                if G.manifold_report(cand["F"], len(cand["V"]))[0] and fails(cand):
-                    cur = cand
-                    changed = True
-                    break
+                if G.manifold_report(cand["F"], len(cand["V"]))[0]:
+                    cands.append(cand)
+            if not cands:
+                break
+            res = fails_many(cands)
+            hit = [c for c, r in zip(cands, res) if r]
+            if not hit:
+                break
+            cur = hit[0]
     return cur
 
 
@@ -728,14 +739,14 @@ def run(ctx):
             ctx.report_known(key, ctx.known(key)["what"])
             continue
 
-        def f(cand, k0=k, call0=call):
-            o = run_driver([cand], timeout=120)[0]
-            return any(True for kk, mm in oracle_case(cand, o) if cand["script"][kk][0] == call0[0]) if call0 else bool(oracle_case(cand, o))
-        small = case
-        if call is not None and case["meta"]["variant"] in ("base", "translate", "signedperm", "similarity", "scale", "rotation", "renumber"):
+        def fm(cands, call0=call):
+            os_ = run_driver(cands, timeout=300)
+            return [any(cand["script"][kk][0] == call0[0] for kk, mm in oracle_case(cand, o_) if kk >= 0) for cand, o_ in zip(cands, os_)]
+        small = strip(case)
+        if call is not None:
             try:
-                if f(strip(case)):
-                    small = shrink_case(strip(case), k, f)
+                if fm([strip(case)])[0]:
+                    small = shrink_case(strip(case), k, fm)
             except Exception as ex:  # noqa
                 ctx.log("shrinking failed: %r" % ex)
         o = run_driver([small], timeout=120)[0]
